@@ -99,4 +99,73 @@ func factsC02() {
 		"dynupdate.go checkBackendPair: conditions reading Cookie.Preserve (loop that fills the empty slots)")
 	addStrList("c02PreserveGuardPair", c02preserveGuards("pkg/haproxy/dynupdate.go", "dynUpdater", "checkEndpointPair"),
 		"dynupdate.go checkEndpointPair: conditions reading Cookie.Preserve")
+	factsC02Sock()
+}
+
+// factsC02Sock: which socket the dynamic updater talks through and how that socket handles its connection
+// (Model/C02Sock.lean Client.send; theorem facts_c02_sock)
+func factsC02Sock() {
+	// connections.DynUpdate(): c.dynUpdate = socket.NewSocket(c.adminSock, <keepalive>)
+	var news []string
+	ast.Inspect(methodDecl("pkg/haproxy/connections.go", "connections", "DynUpdate").Body, func(n ast.Node) bool {
+		if a, ok := n.(*ast.AssignStmt); ok && len(a.Lhs) == 1 && len(a.Rhs) == 1 && c02expr(a.Lhs[0]) == "c.dynUpdate" {
+			news = append(news, c02expr(a.Rhs[0]))
+		}
+		return true
+	})
+	addStr("c02DynUpdateNewSocket", strconv.Quote(one(news, "connections.DynUpdate: assignment of c.dynUpdate")),
+		"connections.go DynUpdate(): how the socket of the dynamic updater is created (last argument = keep-alive)")
+	// the socket newDynUpdater uses
+	var used []string
+	ast.Inspect(methodDecl("pkg/haproxy/dynupdate.go", "instance", "newDynUpdater").Body, func(n ast.Node) bool {
+		if kv, ok := n.(*ast.KeyValueExpr); ok && c02expr(kv.Key) == "socket" {
+			used = append(used, c02expr(kv.Value))
+		}
+		return true
+	})
+	if one(used, "newDynUpdater: socket field") != "i.conns.DynUpdate()" {
+		fail("newDynUpdater: the dynamic updater no longer talks through conns.DynUpdate(): %v", used)
+	}
+	// sock.Send: the conditions that read keepalive, and what the plain `!s.keepalive` one does
+	var conds []string
+	closes := false
+	ast.Inspect(methodDecl("pkg/haproxy/socket/socket.go", "sock", "Send").Body, func(n ast.Node) bool {
+		if s, ok := n.(*ast.IfStmt); ok {
+			c := c02expr(s.Cond)
+			if strings.Contains(c, "keepalive") {
+				conds = append(conds, c)
+			}
+			if c == "!s.keepalive" && len(s.Body.List) == 1 {
+				if es, ok := s.Body.List[0].(*ast.ExprStmt); ok && c02expr(es.X) == "s.close()" {
+					closes = true
+				}
+			}
+		}
+		return true
+	})
+	addStrList("c02SockSendKeepAliveConds", conds, "socket.go sock.Send: conditions reading keepalive, source order")
+	addBool("c02SockSendClosesWithoutKeepAlive", closes, "socket.go sock.Send: `if !s.keepalive { s.close() }`")
+	// sock.acquireConn: the condition under which it dials
+	var dial []string
+	ast.Inspect(methodDecl("pkg/haproxy/socket/socket.go", "sock", "acquireConn").Body, func(n ast.Node) bool {
+		if s, ok := n.(*ast.IfStmt); ok {
+			found := false
+			for _, st := range s.Body.List {
+				ast.Inspect(st, func(m ast.Node) bool {
+					if _, isIf := m.(*ast.IfStmt); isIf {
+						return false
+					}
+					if c, ok := m.(*ast.CallExpr); ok && calleeName(c.Fun) == "net.Dial" {
+						found = true
+					}
+					return true
+				})
+			}
+			if found {
+				dial = append(dial, c02expr(s.Cond))
+			}
+		}
+		return true
+	})
+	addStr("c02SockDialCond", strconv.Quote(one(dial, "acquireConn: condition of net.Dial")), "socket.go sock.acquireConn: a connection is dialed only when there is none")
 }
